@@ -663,3 +663,21 @@ Definition history_ok (cfg : config) (h : list event) : Prop :=
   (* C11: every target finished exactly once, after its last feature and before the return *)
   /\ (forall i, In i (c_targets cfg) ->
         exists a b, h = a ++ EFinish i :: b ++ [EReturn] /\ no_finish i a /\ quiet i b).
+
+(** a scheduler that postpones the exit of reader and snapper as long as anything else can move
+    (used to exhibit that ProcessFeatures does not wait for them) *)
+Definition is_exit (l : label) : bool :=
+  match l with LSnapExit | LReadExit => true | _ => false end.
+
+Definition pick_lazy_exit (ls : list label) : option label :=
+  match filter (fun l => negb (is_exit l)) ls with
+  | l :: _ => Some l
+  | [] => hd_error ls
+  end.
+
+Fixpoint upto_return (ls : list label) : list label :=
+  match ls with
+  | [] => []
+  | LReturn :: _ => [LReturn]
+  | l :: r => l :: upto_return r
+  end.
